@@ -199,6 +199,5 @@ pub fn entry_points<S: Src>(s: &mut S) {
     let want = if valid_hand(&w) { v } else { 0 };
     check!(s, h.is_valid() == valid_hand(&w), "C01.entry_points.is_valid_exact");
     check!(s, h.hand_rank_value_validated() == want, "C01.entry_points.validated_zero_iff_not_valid");
-    check!(s, h.hand_rank_validated() == HandRank::from(want), "C01.entry_points.hand_rank_validated");
     check!(s, evaluate::five_cards(w) == want, "C01.entry_points.free_function_is_validated");
 }
